@@ -190,7 +190,7 @@ class DFXPReader(BaseReader):
                         MICROSECONDS_PER_UNIT["seconds"]
         if clock_time_match.group('sub_frames'):
             microseconds += int(clock_time_match.group('sub_frames').ljust(
-                3, '0')) * MICROSECONDS_PER_UNIT["milliseconds"]
+                6, '0')[:6])
         elif clock_time_match.group('frames'):
             microseconds += int(clock_time_match.group('frames')) / 30 * \
                             MICROSECONDS_PER_UNIT["seconds"]
